@@ -934,8 +934,12 @@ def stage_wiring(ctx, p, RULE, variant, df_path, is_frame_coef, gain_exp):
     # per-sample interpolation of the coefficients
     syms = LoopSyms(None)
     inter = None
+    from ..loops import enumerate_as_range as _ear
     for sbb, i, st, tgt, root, chain, val in stores(b, eb):
-        t_, v_ = res(tgt), res(val)
+        # `for (k, c) in coefficients.iter_mut().enumerate() { *c += cinc[k] }` reads as the index loop
+        t_, v_ = _ear(res(tgt)), _ear(res(val))
+        if t_[0] == "idx" and t_[1][0] == "call" and len(t_[1][2]) == 1 and t_[1][1].rsplit("::", 1)[-1] in ("iter_mut", "into_iter", "deref_mut"):
+            t_ = ("idx", t_[1][2][0], t_[2])
         if t_[0] == "idx" and _fld(t_[1], "coefficients"):
             if not (_dom(b, cbb, sbb) and cbb != sbb):
                 continue        # before the filter call: not the per-sample interpolation
